@@ -2,14 +2,17 @@
 (* (M/R) for C08: the abstract request space. TLC enumerates it - every (key, class) singly with every tail shape,
    every pair of (key, class) x (key, class) over PairClasses with every tail of PairTails, plus the other
    endpoints - checks the sanity of the oracle on every element (invariant Sane) and prints each element as one
-   JSON line (prefix GEN) that harness/drive/c08 turns into concrete requests.                              *)
+   JSON line (prefix GEN) that harness/drive/c08 turns into concrete requests.
+   The families are written as predicates over the variable r (\E ... : r = Req(..)) so that TLC enumerates the
+   initial states directly.                                                                                  *)
 EXTENDS UrlSpaceOps, TLC, Json
 
 CONSTANTS
    SingleClasses,   \* value classes used singly (all of Classes)
    PairClasses,     \* value classes used in pairs
    PairTails,       \* tail shapes used with pairs
-   PatchClasses     \* value classes used on /patch
+   PatchClasses,    \* value classes used on /patch
+   LLTails          \* tail shapes used with the low-latency pair (chunkdur, ato)
 
 VARIABLE r
 
@@ -23,63 +26,75 @@ KeySeq == <<"start", "ast", "stop", "startrel", "stoprel", "dur", "init", "tsbd"
             "tfdt", "cont", "insertad", "continuous", "segtimeline", "segtimelinenr", "sidx", "segtimelineloss",
             "utc", "timesubsstpp", "timesubswvtt", "statuscode", "traffic", "annexI", "drm", "eccp", "modulo", "zzz">>
 ASSUME SeqSet(KeySeq) = Keys /\ Len(KeySeq) = Cardinality(Keys)
-
-Parts(cls) == {Part(k, c) : k \in Keys, c \in cls}
+NK == Len(KeySeq)
 
 \* --- /livesim2, one parameter, every tail; unknown / missing asset with the tails that make sense there
 LiveSingle ==
-   {Req("plain", "livesim2", "GET", <<p>>, "known", t, "now_ok", "none") : p \in Parts(SingleClasses), t \in LiveTails}
-   \cup {Req("plain", "livesim2", "GET", <<p>>, "unknown", t, "now_ok", "none") : p \in Parts(SingleClasses), t \in {"mpd", "vnum"}}
-   \cup {Req("plain", "livesim2", "GET", <<p>>, "none", "mpd", "now_ok", "none") : p \in Parts(SingleClasses)}
+   \/ \E k \in Keys, c \in SingleClasses, t \in LiveTails :
+         r = Req("plain", "livesim2", "GET", <<Part(k, c)>>, "known", t, "now_ok", "none")
+   \/ \E k \in Keys, c \in SingleClasses, t \in {"mpd", "vnum"} :
+         r = Req("plain", "livesim2", "GET", <<Part(k, c)>>, "unknown", t, "now_ok", "none")
+   \/ \E k \in Keys, c \in SingleClasses :
+         r = Req("plain", "livesim2", "GET", <<Part(k, c)>>, "none", "mpd", "now_ok", "none")
 
 \* --- /livesim2, two parameters with different keys (URL order = KeySeq order)
-IdxPairs == {ij \in (1..Len(KeySeq)) \X (1..Len(KeySeq)) : ij[1] < ij[2]}
 LivePairs ==
-   {Req("plain", "livesim2", "GET", <<Part(KeySeq[ij[1]], c1), Part(KeySeq[ij[2]], c2)>>, "known", t, "now_ok", "none") :
-       ij \in IdxPairs, c1 \in PairClasses, c2 \in PairClasses, t \in PairTails}
+   \E i \in 1..NK, j \in 1..NK, c1 \in PairClasses, c2 \in PairClasses, t \in PairTails :
+      /\ i < j
+      /\ r = Req("plain", "livesim2", "GET", <<Part(KeySeq[i], c1), Part(KeySeq[j], c2)>>, "known", t, "now_ok", "none")
+
+\* --- low-latency mode: chunkdur x ato over ALL classes (chunk duration = segment duration - ato)
+LiveLL ==
+   \E c1 \in SingleClasses, c2 \in SingleClasses, t \in LLTails :
+      r = Req("plain", "livesim2", "GET", <<Part("chunkdur", c1), Part("ato", c2)>>, "known", t, "now_ok", "none")
 
 \* --- /livesim2 without parameters: every server configuration, method, query shape
 LiveQueries == {"now_ok", "now_none", "now_bad", "now_neg", "now_huge", "now_zero", "nowdate_ok", "nowdate_bad",
                 "pubtime_bad", "pt_ok", "extra"}
 LiveBare ==
-   {Req(s, "livesim2", m, <<>>, "known", t, "now_ok", "none") :
-        s \in {"plain", "drm", "limit"}, m \in {"GET", "HEAD", "POST", "OPTIONS", "PUT", "DELETE"}, t \in LiveTails}
-   \cup {Req("plain", "livesim2", "GET", <<>>, a, t, q, "none") : a \in {"known", "unknown", "none"}, t \in LiveTails, q \in LiveQueries}
-   \cup {Req("plain", "livesim2", "HEAD", <<p>>, "known", t, "now_ok", "none") :
-             p \in Parts({"nonnum", "zero", "typical"}), t \in {"mpd", "vnum", "unk_rep"}}
+   \/ \E s \in {"plain", "drm", "limit"}, m \in {"GET", "HEAD", "POST", "OPTIONS", "PUT", "DELETE"}, t \in LiveTails :
+         r = Req(s, "livesim2", m, <<>>, "known", t, "now_ok", "none")
+   \/ \E a \in {"known", "unknown", "none"}, t \in LiveTails, q \in LiveQueries :
+         r = Req("plain", "livesim2", "GET", <<>>, a, t, q, "none")
+   \/ \E k \in Keys, c \in {"nonnum", "zero", "typical"}, t \in {"mpd", "vnum", "unk_rep"} :
+         r = Req("plain", "livesim2", "HEAD", <<Part(k, c)>>, "known", t, "now_ok", "none")
    \* DRM-related keys on the server with a DRM configuration
-   \cup {Req("drm", "livesim2", "GET", <<p>>, "known", t, "now_ok", "none") :
-             p \in {Part(k, c) : k \in {"drm", "eccp", "chunkdur"}, c \in SingleClasses}, t \in LiveTails}
+   \/ \E k \in {"drm", "eccp", "chunkdur"}, c \in SingleClasses, t \in LiveTails :
+         r = Req("drm", "livesim2", "GET", <<Part(k, c)>>, "known", t, "now_ok", "none")
 
 \* --- /patch
 PatchQueries == {"pt_ok", "pt_none", "pt_bad", "pt_future", "pt_same", "pt_only"}
 PatchReqs ==
-   {Req("plain", "patch", "GET", <<>>, a, t, q, "none") : a \in {"known", "unknown", "none"}, t \in {"mpp", "mpd", "vnum"}, q \in PatchQueries}
-   \cup {Req("plain", "patch", "GET", <<p>>, "known", "mpp", q, "none") : p \in Parts(PatchClasses), q \in {"pt_ok", "pt_none"}}
+   \/ \E a \in {"known", "unknown", "none"}, t \in {"mpp", "mpd", "vnum"}, q \in PatchQueries :
+         r = Req("plain", "patch", "GET", <<>>, a, t, q, "none")
+   \/ \E k \in Keys, c \in PatchClasses, q \in {"pt_ok", "pt_none"} :
+         r = Req("plain", "patch", "GET", <<Part(k, c)>>, "known", "mpp", q, "none")
 
 \* --- /urlgen
 UrlgenKeys == Keys \ {"ast", "dur", "init", "xlink", "etp", "etpDuration", "peroff", "modulo", "tfdt", "cont", "insertad",
                       "segtimeline", "segtimelinenr", "sidx", "segtimelineloss", "timeoffset", "eccp"}
 UrlgenReqs ==
-   {Req(s, "urlgen_create", "GET", <<p>>, a, "create", "none", "none") :
-        s \in {"plain", "drm"}, p \in {Part(k, c) : k \in UrlgenKeys, c \in SingleClasses}, a \in {"known", "unknown", "none"}}
-   \cup {Req(s, "urlgen_create", "GET", <<>>, a, "create", "none", "none") : s \in {"plain", "drm"}, a \in {"known", "unknown", "none"}}
-   \cup {Req(s, e, "GET", <<>>, a, "list", "none", "none") :
-             s \in {"plain", "drm"}, e \in {"urlgen_mpds", "urlgen_drms"}, a \in {"known", "unknown", "none"}}
+   \/ \E s \in {"plain", "drm"}, k \in UrlgenKeys, c \in SingleClasses, a \in {"known", "unknown", "none"} :
+         r = Req(s, "urlgen_create", "GET", <<Part(k, c)>>, a, "create", "none", "none")
+   \/ \E s \in {"plain", "drm"}, a \in {"known", "unknown", "none"} :
+         r = Req(s, "urlgen_create", "GET", <<>>, a, "create", "none", "none")
+   \/ \E s \in {"plain", "drm"}, ep \in {"urlgen_mpds", "urlgen_drms"}, a \in {"known", "unknown", "none"} :
+         r = Req(s, ep, "GET", <<>>, a, "list", "none", "none")
 
 \* --- the remaining GET endpoints of livesim2
 MiscTails == {"urlgen", "urlgen_other", "assets", "vod_root", "vod_file", "reqcount", "healthz", "config", "version",
               "metrics", "favicon.ico", "index", "static", "nopath", "redirect", "debug"}
 MiscReqs ==
-   {Req(s, "misc", m, <<>>, a, t, q, "none") :
-        s \in {"plain", "limit"}, m \in {"GET", "HEAD", "OPTIONS", "DELETE"}, a \in {"known", "unknown"}, t \in MiscTails,
-        q \in {"none", "now_ok"}}
+   \E s \in {"plain", "limit"}, m \in {"GET", "HEAD", "OPTIONS", "DELETE"}, a \in {"known", "unknown"}, t \in MiscTails,
+      q \in {"none", "now_ok"} :
+         r = Req(s, "misc", m, <<>>, a, t, q, "none")
 
 \* --- POST license requests
 LaurlBodies == {"empty", "notjson", "json_nokids", "kids_empty", "kid_ok", "kid_wronglen", "kid_noprefix", "kid_badb64",
                 "kids_many", "kids_notarray"}
-LaurlReqs == {Req(s, "laurl", "POST", <<>>, "none", t, "none", b) :
-                  s \in {"plain", "drm"}, t \in {"live_eccp", "root_eccp", "not_eccp"}, b \in LaurlBodies}
+LaurlReqs ==
+   \E s \in {"plain", "drm"}, t \in {"live_eccp", "root_eccp", "not_eccp"}, b \in LaurlBodies :
+      r = Req(s, "laurl", "POST", <<>>, "none", t, "none", b)
 
 \* --- /api/cmaf-ingests
 ApiBodies == {"empty", "notjson", "json_empty", "valid_unreach", "url_empty", "url_noslash", "url_space",
@@ -87,36 +102,38 @@ ApiBodies == {"empty", "notjson", "json_empty", "valid_unreach", "url_empty", "u
               "nowms_neg", "wrong_types"}
 ApiIds == {"id_nonnum", "id_neg", "id_huge", "id_long", "id_unknown", "id_known"}
 ApiReqs ==
-   {Req("plain", "api", "POST", <<>>, "none", "create", "none", b) : b \in ApiBodies}
-   \cup {Req("plain", "api", "GET", <<>>, "none", t, q, "none") : t \in {"get", "step"}, q \in ApiIds}
-   \cup {Req("plain", "api", "DELETE", <<>>, "none", "delete", q, "none") : q \in ApiIds}
-   \cup {Req("plain", "api", m, <<>>, "none", "docs", "none", "none") : m \in {"GET", "POST"}}
+   \/ \E b \in ApiBodies : r = Req("plain", "api", "POST", <<>>, "none", "create", "none", b)
+   \/ \E t \in {"get", "step"}, q \in ApiIds : r = Req("plain", "api", "GET", <<>>, "none", t, q, "none")
+   \/ \E q \in ApiIds : r = Req("plain", "api", "DELETE", <<>>, "none", "delete", q, "none")
+   \/ \E m \in {"GET", "POST"} : r = Req("plain", "api", m, <<>>, "none", "docs", "none", "none")
 
 \* --- CMAF-ingest receiver: method x path shape x body shape x Content-Length shape
 RcvTails  == {"seg", "streams", "mpd", "badext", "nochan", "deep", "prefix_only", "outside", "emptytrack", "audio", "text",
               "meta", "weird"}
 RcvBodies == {"empty", "size0", "size1", "size2", "size3", "size4", "size5", "size6", "size7", "size_gt", "size_wrap",
               "junk", "moof_no_traf", "moof_empty", "moov_empty", "moov_junk", "ftyp_only", "mdat_only", "media_valid",
-              "init_then_media", "init_valid", "init_truncated", "media_truncated", "two_media", "init_plus_media",
-              "mpd_xml", "text"}
+              "init_then_media", "init_valid", "init_truncated", "media_truncated", "two_media", "init_plus_media"}
+\* text bodies only where the receiver does not parse boxes (MPD upload): a text body sent to a segment path is read
+\* as a box of ~1.7 GB ("<?xm", "hell") and makes the parser allocate that much - excluded here on purpose
+RcvTextBodies == {"mpd_xml", "text"}
 RcvCls    == {"cl_ok", "cl_none", "cl_small", "cl_big", "cl_neg", "cl_nonnum", "cl_huge"}
 RcvReqs ==
-   {Req("rcv", "rcv", m, <<>>, "none", t, "cl_ok", b) : m \in {"PUT", "POST"}, t \in RcvTails, b \in RcvBodies}
-   \cup {Req("rcv", "rcv", "PUT", <<>>, "none", t, c, b) : t \in {"seg", "streams", "mpd"}, c \in RcvCls, b \in RcvBodies}
-   \cup {Req("rcv", "rcv", m, <<>>, "none", t, "cl_none", "empty") : m \in {"DELETE", "GET", "HEAD", "OPTIONS"}, t \in RcvTails}
-   \cup {Req("rcvraw", "rcv", m, <<>>, "none", t, c, b) :
-             m \in {"PUT", "GET"}, t \in {"seg", "streams", "mpd", "badext"}, c \in {"cl_ok", "cl_none", "cl_huge"}, b \in RcvBodies}
+   \/ \E m \in {"PUT", "POST"}, t \in RcvTails, b \in RcvBodies : r = Req("rcv", "rcv", m, <<>>, "none", t, "cl_ok", b)
+   \/ \E t \in {"seg", "streams", "mpd"}, c \in RcvCls, b \in RcvBodies : r = Req("rcv", "rcv", "PUT", <<>>, "none", t, c, b)
+   \/ \E m \in {"DELETE", "GET", "HEAD", "OPTIONS"}, t \in RcvTails : r = Req("rcv", "rcv", m, <<>>, "none", t, "cl_none", "empty")
+   \/ \E s \in {"rcv", "rcvraw"}, m \in {"PUT", "POST"}, c \in RcvCls, b \in RcvTextBodies :
+         r = Req(s, "rcv", m, <<>>, "none", "mpd", c, b)
+   \/ \E m \in {"PUT", "GET"}, t \in {"seg", "streams", "mpd", "badext"}, c \in {"cl_ok", "cl_none", "cl_huge"}, b \in RcvBodies :
+         r = Req("rcvraw", "rcv", m, <<>>, "none", t, c, b)
 
-Secondary == PatchReqs \cup UrlgenReqs \cup MiscReqs \cup LaurlReqs \cup ApiReqs \cup RcvReqs
-Requests == LiveSingle \cup LivePairs \cup LiveBare \cup Secondary
+WithCtx(q) == q @@ [ctx |-> CtxOf(q.ep, q.tail, q.parts)]
 
-WithCtx(q) == [q EXCEPT !.parts = q.parts] @@ [ctx |-> CtxOf(q.ep, q.tail, q.parts)]
-
-Init == r \in Requests
+Init == LiveSingle \/ LivePairs \/ LiveLL \/ LiveBare \/ PatchReqs \/ UrlgenReqs \/ MiscReqs \/ LaurlReqs \/ ApiReqs \/ RcvReqs
 Next == UNCHANGED r
 Spec == Init /\ [][Next]_r
 
-TypeOK == /\ r.parts \in Seq([k : Keys, c : Classes]) /\ Len(r.parts) <= 2
+TypeOK == /\ Len(r.parts) <= 2
+          /\ \A i \in DOMAIN r.parts : r.parts[i].k \in Keys /\ r.parts[i].c \in Classes
           /\ r.method \in {"GET", "HEAD", "POST", "PUT", "DELETE", "OPTIONS"}
           /\ r.asset \in {"known", "unknown", "none"}
           /\ (r.ep = "livesim2" /\ r.asset = "known") => r.tail \in LiveTails
